@@ -55,6 +55,16 @@ def negated_premises(test):
     return out
 
 
+_COMPL = {ast.Lt: ast.GtE, ast.LtE: ast.Gt, ast.Gt: ast.LtE, ast.GtE: ast.Lt}
+
+
+def _up(n):
+    n = getattr(n, "_parent", None)
+    while n is not None:
+        yield n
+        n = getattr(n, "_parent", None)
+
+
 def implied(target, premises):
     """target >= 0 follows from some premise p >= 0 when target - p is a non-negative constant"""
     for p in premises:
@@ -317,14 +327,42 @@ def run(pm, ctx):
     cst = call
     while not isinstance(cst, ast.stmt):
         cst = cst._parent
-    body = cst._parent.body
-    idx = body.index(cst)
-    skips = [s for s in body[:idx] if isinstance(s, ast.If) and s.body and isinstance(s.body[-1], ast.Continue)]
+    # the scan loop, and the conditions under which the candidate is evaluated: earlier `if ...: continue` guards of the blocks that hold
+    # the call (their negations hold) and the tests of the `if` statements the call is nested in (they hold)
+    scan_loop = next((p_ for p_ in _up(cst) if isinstance(p_, ast.For)), None)
+    skips, enclosing = [], []
+    child = cst
+    for p_ in _up(cst):
+        for field in ("body", "orelse"):
+            blk = getattr(p_, field, None)
+            if isinstance(blk, list) and any(x is child for x in blk):
+                i_ = next(i for i, x in enumerate(blk) if x is child)
+                skips += [s for s in blk[:i_] if isinstance(s, ast.If) and s.body and isinstance(s.body[-1], ast.Continue) and not s.orelse]
+                if isinstance(p_, ast.If):
+                    enclosing.append((p_, field == "body"))
+        if p_ is scan_loop:
+            break
+        child = p_
     site = "find_best_split: min-leaf window"
     prem = []
     for s in skips:
         try:
             prem += negated_premises(s.test)
+        except NotScalarArithmetic:
+            pass
+    for if_, holds in enclosing:
+        try:
+            if holds:
+                conj = if_.test.values if isinstance(if_.test, ast.BoolOp) and isinstance(if_.test.op, ast.And) else [if_.test]
+                for c in conj:
+                    try:
+                        # c holds  <=>  not (not c): reuse the negation table on the complemented comparison
+                        if isinstance(c, ast.Compare) and len(c.ops) == 1 and type(c.ops[0]) in _COMPL:
+                            prem += negated_premises(ast.Compare(left=c.left, ops=[_COMPL[type(c.ops[0])]()], comparators=c.comparators))
+                    except NotScalarArithmetic:
+                        pass
+            else:
+                prem += negated_premises(if_.test)
         except NotScalarArithmetic:
             pass
     try:
@@ -347,7 +385,7 @@ def run(pm, ctx):
         ctx.violation("C09-c", pu.relpath, "find_best_split", norm_src(skips[0].test) if skips else "window test",
                       "the scan does not guarantee n_leaf - split_size >= min_leaf", line=cst.lineno, site=site + ": right part")
     # the loop variable / split_size relation: split_size counts the samples moved to the left so far
-    scan = cst._parent
+    scan = scan_loop
     if isinstance(scan, ast.For) and norm_src(scan.target) == "l_split" and norm_src(scan.iter) in ("range(n_leaf - 1)",) \
             and norm_src(argmap["split_size"]) == "l_split + 1":
         ctx.ok("C09-c", "find_best_split: scan over l_split in range(n_leaf-1), split_size = l_split+1")
@@ -371,7 +409,9 @@ def run(pm, ctx):
             row = norm_src(thr.slice.elts[0])
             eqskip = [s_ for s_ in skips if isinstance(s_.test, ast.Compare) and isinstance(s_.test.ops[0], ast.Eq) and norm_src(thr) in (norm_src(s_.test.left), norm_src(s_.test.comparators[0]))]
             nxt = False
-            for s_ in eqskip:
+            neq = [if_ for if_, holds in enclosing if holds and isinstance(if_.test, ast.Compare) and isinstance(if_.test.ops[0], ast.NotEq)
+                   and norm_src(thr) in (norm_src(if_.test.left), norm_src(if_.test.comparators[0]))]
+            for s_ in eqskip + neq:
                 other = s_.test.comparators[0] if norm_src(s_.test.left) == norm_src(thr) else s_.test.left
                 if isinstance(other, ast.Subscript) and norm_src(other.value) == "X" and isinstance(other.slice, ast.Tuple) and norm_src(other.slice.elts[1]) == norm_src(feat):
                     r2 = other.slice.elts[0]
